@@ -15,6 +15,8 @@ def _worker(args):
         h = history.History(rpc, random.Random(seed))
         if profile:
             h.profile = profile
+        if profile and profile.get('prelude') == 'epic_chain' and seed % 3 == 0:
+            h.prelude_epic_chain()
         for _ in range(nsteps):
             h.do(h.gen_request())
         term = h.coq_case()
